@@ -207,8 +207,25 @@ type agg struct {
 	perConfig map[string]int64
 	notes     map[string]bool
 	dir       string
+	sigCount  map[string]int64
 	first     map[string]caseDesc // first case per violation signature (for the confirmation pass)
 	known     []fw.Finding
+}
+
+// tooMany stops the exploration early once plenty of unknown violations are on record (the run fails anyway).
+func (a *agg) tooMany() bool {
+	if os.Getenv("C02_NO_EARLY_STOP") != "" {
+		return false
+	}
+	a.mu.Lock()
+	defer a.mu.Unlock()
+	n := int64(0)
+	for s, c := range a.sigCount {
+		if !a.isKnown(s) {
+			n += c
+		}
+	}
+	return n >= 60
 }
 
 func (a *agg) remember(sig string, d caseDesc) {
@@ -340,6 +357,7 @@ func (a *agg) handle(pool string, items []item, workers int, i int, res string, 
 		a.perConfig[key]++
 		a.outcomes.Inc("process-" + kind)
 		a.remember(faultSig(kind, d), d)
+		a.sigCount[faultSig(kind, d)]++
 		a.run.Violation(faultSig(kind, d), fmt.Sprintf("%s: the process died (%s) while executing this case: %s", d, kind, fw.FirstLines(crash.Stderr, 3)), d)
 		if seq+1 < len(cases) {
 			a.resumes = append(a.resumes, item{Batch: *b, From: seq + 1})
@@ -375,6 +393,7 @@ func (a *agg) handle(pool string, items []item, workers int, i int, res string, 
 		detailed[v.Sig]++
 	}
 	for sig, n := range r.SigCount {
+		a.sigCount[sig] += n
 		for k := detailed[sig]; k < n; k++ {
 			a.run.Violation(sig, "(further occurrence in "+mustJSON(b)+")", nil)
 		}
@@ -399,8 +418,12 @@ func supervisePool(a *agg, pool string, items []item, workers int, touchEvery in
 		cur := items
 		done := fw.Supervise(fw.SupOpts{N: len(cur), Workers: w, CaseTimeout: 15 * time.Minute, Mode: pool,
 			Env:  []string{"C02_ITEMS=" + path, "C02_DIR=" + a.dir, "C02_TOUCH_EVERY=" + strconv.Itoa(touchEvery)},
-			Stop: func() bool { return a.run.Expired() }},
+			Stop: func() bool { return a.run.Expired() || a.tooMany() }},
 			func(i int, res string, crash *fw.Crash) { a.handle(pool, cur, w, i, res, crash) })
+		if a.tooMany() {
+			a.run.Capped("stopped early: 60 unknown violations already recorded")
+			return
+		}
 		if done < len(cur) {
 			a.run.Capped("budget")
 		}
@@ -424,7 +447,7 @@ func main() {
 	}
 	defer os.RemoveAll(dir)
 	a := &agg{run: run, outcomes: fw.NewCounter(), samples: fw.NewSampler(12), perConfig: map[string]int64{}, notes: map[string]bool{}, dir: dir,
-		first: map[string]caseDesc{}, known: loadFindings()}
+		first: map[string]caseDesc{}, known: loadFindings(), sigCount: map[string]int64{}}
 
 	if len(os.Args) > 2 && os.Args[1] == "replay" {
 		replay(a, os.Args[2])
@@ -453,6 +476,16 @@ func main() {
 	go func() { defer wg.Done(); supervisePool(a, "huge", huge, 4, touchEvery) }()
 	go func() { defer wg.Done(); supervisePool(a, "small", small, nSmall, touchEvery) }()
 	wg.Wait()
+	if os.Getenv("C02_SIGDUMP") != "" {
+		var ks []string
+		for k := range a.sigCount {
+			ks = append(ks, k)
+		}
+		sort.Strings(ks)
+		for _, k := range ks {
+			fmt.Printf("SIG %8d %s known=%v first=%s\n", a.sigCount[k], k, a.isKnown(k), a.first[k])
+		}
+	}
 	a.confirm()
 
 	bounds := map[string]any{
@@ -470,7 +503,7 @@ func main() {
 		Rule:       "a case = (engine, memory kind, pages, opcode, static offset, base form, placement, effective base, condition); all cases are distinct by construction (bases de-duplicated on the value the program computes); non-trivial = the reference reaches the access under test (not cut short by a trapping earlier access or an untaken branch)",
 		Samples:    a.samples.List(),
 		Exhaustive: true, Outcomes: a.outcomes.Map(), Bounds: bounds,
-		Extra: map[string]any{"child_cpu_ms": map[string]int64{"generate": a.genMs, "compile": a.compMs, "execute_and_compare": a.runMs}, "process_crashes_attributed": a.crashes, "skipped_in_bounds_bulk_over_1MiB": a.skipped, "allocator_contract_notes": notes},
+		Extra: map[string]any{"child_cpu_ms": map[string]int64{"generate": a.genMs, "compile": a.compMs, "execute_and_compare": a.runMs}, "process_crashes_attributed": a.crashes, "failure_signatures": a.sigCount, "skipped_in_bounds_bulk_over_1MiB": a.skipped, "allocator_contract_notes": notes},
 	}, []string{
 		"the guard detects displaced accesses up to +-4 GiB (+64 KiB) from the memory and stale bases of moved memories; an access displaced further, or into another mapping by an unrelated wild pointer, is only seen if it faults or changes a compared byte",
 		"large memories (> 64 pages) are compared in 64 KiB windows around every address the reference or a 32-bit-wrapping / sign-confusing computation could form, plus a page-table (mincore) guard over the whole memory every few cases and a full comparison of all painted chunks per batch",
